@@ -81,6 +81,10 @@ INJECTIVE_KEYS = {
     (COMP, "_compile_memories", "lambda x: x.name()", 1):
         "memory classes: distinct memories used in one library are assumed to have distinct names "
         "(their global code would otherwise be emitted twice under one name)",
+    (COMP, "compile_to_strings", "", 1):
+        "needed_helpers holds keys of the module dict _static_helpers (Compiler._call_static_helper adds its "
+        "`helper` argument, always a string literal at the call sites, and the very next use indexes "
+        "_static_helpers with it): distinct strings, whose natural order is total and value-based",
     (COMP, "_compile_context_struct", "lambda x: x.name()", 1):
         "config names: the loop that follows raises TypeError('multiple configs named ..') on a duplicate",
 }
@@ -267,6 +271,9 @@ class Orders:
                 el |= self.an.S(s).elem
             if el and all(a[0] == "I" and a[1] in ("int", "str", "bool") for a in el):
                 return "R3: no key, elements are ints/strs (natural order is total and value-based)"
+            why = INJECTIVE_KEYS.get(base + (r["key_ord"],))
+            if why:
+                return f"R3: no key, natural order is total on the elements by annotation: {why}"
             return None
         auto = self.dup_check_follows(r)
         if auto:
